@@ -156,5 +156,22 @@ func callExpr(method, via string, this *refstr.Val, args []refstr.Val) string {
 	case "apply":
 		return "String.prototype." + method + ".apply(" + jsVal(this) + ",[" + a + "])"
 	}
-	return "(" + jsVal(this) + ")." + method + "(" + a + ")"
+	call := "(" + jsVal(this) + ")." + method + "(" + a + ")"
+	if this.K == "str" && method != "toString" && method != "valueOf" && allPrimitive(args) {
+		// 11.2.3 step 6.a.i: the this value of the call is the primitive itself, and ToString of a primitive
+		// string consults nothing: overriding String.prototype.toString / valueOf must not be observable
+		return `(function(){var T=String.prototype.toString,V=String.prototype.valueOf;String.prototype.toString=function(){return "zzz"};String.prototype.valueOf=function(){return "yyy"};try{return ` + call + `}finally{String.prototype.toString=T;String.prototype.valueOf=V}})()`
+	}
+	return call
+}
+
+func allPrimitive(args []refstr.Val) bool {
+	for i := range args {
+		switch args[i].K {
+		case "str", "num", "undef", "null", "bool":
+		default:
+			return false
+		}
+	}
+	return true
 }
